@@ -18,7 +18,7 @@ for pid in ["C%02d" % i for i in range(1, 21)]:
     rows.append("| %s | %s | %s/%s | %s closed of %s printed | %s | %s |" % (
         pid, "claimed" if pid in ready else "built, not claimed", cov.get("discharged", "?"), cov.get("obligations", "?"),
         closed, len(ass), cov.get("evaluations", "?"), ", ".join(map(str, opens)) if opens else "none"))
-print("| id | status | obligations discharged | Print Assumptions | quick-tier cases | open obligations |")
+print("| id | status | obligations discharged | Print Assumptions | cases in the recorded run (thorough tier) | open obligations |")
 print("|---|---|---|---|---|---|")
 print("\n".join(rows))
 print()
